@@ -1,6 +1,7 @@
 import TpmVerif.Base.Trace
 import TpmVerif.Crypto.Sha
 import TpmVerif.Crypto.Aes
+import TpmVerif.Crypto.Asym
 /-! Checker for C13 traces: every digest / MAC / ciphertext / signature returned by the TPM is recomputed or verified
     with the Lean reference implementations. -/
 namespace TpmVerif.Check.C13
@@ -122,6 +123,122 @@ def step (c : CS) (l : Line) : CS :=
       let c := if !ok then mism c "SPEC[ecdsa-invalid] ECDSA signature does not verify under the public key (reference verifier)" else branch c "ecdsa/verifies"
       let c := if l.nat "verify0" ≠ 0 then mism c s!"SPEC[verify-rejects-valid] VerifySignature refused a valid ECDSA signature rc={l.nat "verify0"}" else c
       if l.nat "verify1" = 0 then mism c "SPEC[verify-accepts-invalid] VerifySignature accepted a corrupted ECDSA signature" else c
+  | "sym2" =>
+      if l.get? "note" ≠ none then c else
+      let c := { c with rep := { c.rep with events := c.rep.events + 1 } }
+      let mode := l.nat "mode"; let dec : Bool := l.nat "decrypt" == 1; let n := l.nat "bs"
+      let c := branch c s!"sym2/alg={l.nat "alg"}/bits={l.nat "bits"}/mode={mode}/dec={dec}/call={l.nat "call"}/partial={decide ((l.bytes "in").length % n ≠ 0)}"
+      if l.nat "rc" ≠ 0 then
+        if (mode = 0x42 ∨ mode = 0x44) ∧ (l.bytes "in").length % n ≠ 0 then c else mism c s!"SPEC[sym-refused] EncryptDecrypt2 alg {l.nat "alg"} mode {mode} rc={l.nat "rc"}"
+      else
+      -- the block function is the table of values of the raw primitive; the mode construction is the reference's
+      let tab : List (Bytes × Bytes) := ((l.str "tab").splitOn ",").filterMap (fun e => match e.splitOn ":" with | [x, y] => some (hx x, hx y) | _ => none)
+      let E : Bytes → Bytes := fun x => ((tab.find? (·.1 == x)).map (·.2)).getD []
+      let iv := l.bytes "iv"; let inp := l.bytes "in"; let out := l.bytes "out"; let ivo := l.bytes "ivout"
+      let ok : Bool :=
+        out.length == inp.length &&
+        (if mode = 0x43 then
+          let r := if dec then cfbDecryptN n E iv inp else cfbEncryptN n E iv inp
+          r.1 == out && (if inp.length % n = 0 then r.2 == ivo else ivo.length == n)
+        else if mode = 0x41 then ofbN n E iv inp == (out, ivo)
+        else if mode = 0x40 then ctrN n E iv inp == (out, ivo)
+        else if mode = 0x42 then (if dec then (cbcEncryptN n E iv out).1 == inp && ivo == inp.drop (inp.length - n) else cbcEncryptN n E iv inp == (out, ivo))
+        else if mode = 0x44 then (if dec then ecbEncryptN n E out == inp else ecbEncryptN n E inp == out)
+        else false)
+      if !ok then mism c s!"SPEC[sym-mismatch] alg {l.nat "alg"}-{l.nat "bits"} mode {mode} decrypt={dec} call={l.nat "call"}: in={l.str "in"} iv={l.str "iv"} out={l.str "out"} ivout={l.str "ivout"}" else c
+  | "ecload" =>
+      let c := { c with rep := { c.rep with events := c.rep.events + 1 } }
+      match curveOfId (l.nat "curve") with
+      | none => mism c s!"unknown curve {l.nat "curve"}"
+      | some cv =>
+        let q := cv.mul (beNat (l.bytes "d")) cv.G
+        let c := branch c s!"ecload/curve={cv.id}"
+        if q ≠ some (beNat (l.bytes "qx"), beNat (l.bytes "qy")) then mism c s!"HARNESS: public point is not d*G on curve {cv.id}" else
+        -- a profile may disable the curve: TPM_RC_CURVE (format-one code 0x26) is then the answer
+        if l.nat "rc" % 64 = 0x26 ∧ l.nat "rc" / 128 % 2 = 1 then branch c s!"ecload/curve={cv.id}/disabled-by-profile" else
+        if l.nat "rc" ≠ 0 then mism c s!"SPEC[ecc-key-refused] LoadExternal of a consistent key pair on curve {cv.id} rc={l.nat "rc"}" else c
+  | "eckeygen" =>
+      let c := { c with rep := { c.rep with events := c.rep.events + 1 } }
+      match curveOfId (l.nat "curve") with
+      | none => mism c s!"unknown curve {l.nat "curve"}"
+      | some cv =>
+        let c := branch c s!"eckeygen/curve={cv.id}"
+        if l.nat "rc" ≠ 0 then mism c s!"SPEC[ecdh-refused] ECDH_KeyGen on curve {cv.id} rc={l.nat "rc"}" else
+        let px := beNat (l.bytes "px"); let py := beNat (l.bytes "py")
+        if !cv.onCurve px py then mism c s!"SPEC[ecdh-point-off-curve] ECDH_KeyGen returned an ephemeral public point that is not on curve {cv.id}" else
+        if cv.mul (beNat (l.bytes "d")) (some (px, py)) ≠ some (beNat (l.bytes "zx"), beNat (l.bytes "zy")) then
+          mism c s!"SPEC[ecdh-mismatch] ECDH_KeyGen curve {cv.id}: zPoint ≠ d·pubPoint (reference scalar multiplication)" else c
+  | "eczgen" =>
+      let c := { c with rep := { c.rep with events := c.rep.events + 1 } }
+      match curveOfId (l.nat "curve") with
+      | none => mism c s!"unknown curve {l.nat "curve"}"
+      | some cv =>
+        let ix := beNat (l.bytes "ix"); let iy := beNat (l.bytes "iy")
+        let on := cv.onCurve ix iy
+        let c := branch c s!"eczgen/curve={cv.id}/on={on}"
+        if !on then (if l.nat "rc" = 0 then mism c s!"SPEC[ecdh-accepts-bad-point] ECDH_ZGen accepted a point that is not on curve {cv.id}" else c) else
+        if l.nat "rc" ≠ 0 then mism c s!"SPEC[ecdh-refused] ECDH_ZGen on curve {cv.id} rc={l.nat "rc"}" else
+        if cv.mul (beNat (l.bytes "d")) (some (ix, iy)) ≠ some (beNat (l.bytes "ox"), beNat (l.bytes "oy")) then
+          mism c s!"SPEC[ecdh-mismatch] ECDH_ZGen curve {cv.id}: outPoint ≠ d·inPoint (reference scalar multiplication)" else c
+  | "ecdsa2" =>
+      let c := { c with rep := { c.rep with events := c.rep.events + 1 } }
+      match curveOfId (l.nat "curve") with
+      | none => mism c s!"unknown curve {l.nat "curve"}"
+      | some cv =>
+        let c := branch c s!"ecdsa2/curve={cv.id}/hash={l.nat "hash"}"
+        if l.nat "rc" ≠ 0 then mism c s!"SPEC[sign-refused] Sign(ECDSA) curve {cv.id} hash {l.nat "hash"} rc={l.nat "rc"}" else
+        let ok := cv.ecdsaVerify (beNat (l.bytes "qx")) (beNat (l.bytes "qy")) (l.bytes "digest") (beNat (l.bytes "r")) (beNat (l.bytes "s"))
+        let c := if !ok then mism c s!"SPEC[ecdsa-invalid] ECDSA signature on curve {cv.id} with hash {l.nat "hash"} does not verify under the public key (reference verifier)" else c
+        let c := if l.nat "verify0" ≠ 0 then mism c s!"SPEC[verify-rejects-valid] VerifySignature refused a valid ECDSA signature (curve {cv.id}) rc={l.nat "verify0"}" else c
+        if l.nat "verify1" = 0 then mism c s!"SPEC[verify-accepts-invalid] VerifySignature accepted a corrupted ECDSA signature (curve {cv.id})" else c
+  | "rsapad" =>
+      let c := { c with rep := { c.rep with events := c.rep.events + 1 } }
+      let scheme := l.nat "scheme"; let m := l.bytes "m"; let n := beNat (l.bytes "n")
+      match algOfId (l.nat "hash") with
+      | none => mism c "unknown hash"
+      | some a =>
+        let fits := decide (m.length ≤ l.nat "max")
+        let c := branch c s!"rsapad/scheme={scheme}/hash={if scheme = 0x17 then a.name else "-"}/label={decide ((l.bytes "label").length > 0)}/len={if m.length = 0 then "0" else if m.length = l.nat "max" then "max" else if fits then "mid" else "over"}"
+        if !fits then (if l.nat "rc" = 0 then mism c s!"SPEC[rsa-pad-overlong] RSA_Encrypt scheme {scheme} accepted a {m.length}-byte message (maximum {l.nat "max"})" else c) else
+        if l.nat "rc" ≠ 0 then mism c s!"SPEC[rsa-refused] RSA_Encrypt scheme {scheme} of a {m.length}-byte message rc={l.nat "rc"}" else
+        if l.nat "rcraw" ≠ 0 then mism c s!"SPEC[rsa-refused] raw RSA_Decrypt of the TPM's own ciphertext rc={l.nat "rcraw"}" else
+        let em := natToBytes (beNat (l.bytes "em")) 256
+        let c := if modPow (beNat em) 65537 n ≠ beNat (l.bytes "c") then mism c "SPEC[rsa-decrypt-mismatch] raw RSA_Decrypt result does not re-encrypt to the ciphertext (reference m^e mod n)" else c
+        let dm := if scheme = 0x17 then oaepDecode a (l.bytes "label") em else rsaesDecode em
+        let c := if dm ≠ some m then mism c s!"SPEC[rsa-padding-mismatch] RSA_Encrypt scheme {scheme} hash {a.name}: the encoded message does not decode to the message under the reference decoder" else c
+        if l.nat "rcdec" ≠ 0 then mism c s!"SPEC[rsa-refused] RSA_Decrypt scheme {scheme} of the TPM's own ciphertext rc={l.nat "rcdec"}" else
+        if l.bytes "dec" ≠ m then mism c s!"SPEC[rsa-decrypt-mismatch] RSA_Decrypt scheme {scheme} does not invert RSA_Encrypt" else c
+  | "rsaunpad" =>
+      let c := { c with rep := { c.rep with events := c.rep.events + 1 } }
+      let scheme := l.nat "scheme"; let em := l.bytes "em"; let n := beNat (l.bytes "n")
+      match algOfId (l.nat "hash") with
+      | none => mism c "unknown hash"
+      | some a =>
+        let dm := if scheme = 0x17 then oaepDecode a (l.bytes "label") em else rsaesDecode em
+        let c := branch c s!"rsaunpad/scheme={scheme}/hash={if scheme = 0x17 then a.name else "-"}/valid={dm.isSome}/bad={l.nat "bad"}"
+        if l.nat "rc" ≠ 0 then mism c s!"SPEC[rsa-refused] raw RSA_Encrypt of an encoded message below the modulus rc={l.nat "rc"}" else
+        let c := if modPow (beNat em) 65537 n ≠ beNat (l.bytes "c") then mism c "SPEC[rsa-encrypt-mismatch] raw RSA encryption: reference m^e mod n ≠ TPM result" else c
+        match dm with
+        | some m =>
+          if l.nat "rcdec" ≠ 0 then mism c s!"SPEC[rsa-unpad-refused] RSA_Decrypt scheme {scheme} hash {a.name} refused a correctly padded message rc={l.nat "rcdec"}" else
+          if l.bytes "dec" ≠ m then mism c s!"SPEC[rsa-unpad-mismatch] RSA_Decrypt scheme {scheme} hash {a.name}: result differs from the reference decoding" else c
+        | none =>
+          -- malformed OAEP must be refused; malformed PKCS #1 v1.5 is either refused or (implicit rejection in the
+          -- crypto library) answered with a synthetic message: not judged
+          if scheme = 0x17 ∧ l.nat "rcdec" = 0 then mism c s!"SPEC[rsa-unpad-accepts-invalid] RSA_Decrypt(OAEP, {a.name}) accepted a malformed encoding" else c
+  | "rsasig2" =>
+      let c := { c with rep := { c.rep with events := c.rep.events + 1 } }
+      let scheme := l.nat "scheme"
+      match algOfId (l.nat "hash") with
+      | none => mism c "unknown hash"
+      | some a =>
+        let c := branch c s!"rsasig2/scheme={scheme}/hash={a.name}"
+        if l.nat "rc" ≠ 0 then mism c s!"SPEC[sign-refused] Sign(scheme {scheme}, {a.name}) rc={l.nat "rc"}" else
+        let em := natToBytes (modPow (beNat (l.bytes "sig")) 65537 (beNat (l.bytes "n"))) 256
+        let ok := if scheme = 0x14 then em == emsaPkcs1 (l.nat "hash") (l.bytes "digest") 256 else pssVerify a (l.bytes "digest") em 2048
+        let c := if !ok then mism c s!"SPEC[rsa-signature-invalid] scheme {scheme} {a.name} signature does not verify under the public key (reference verifier)" else c
+        let c := if l.nat "verify0" ≠ 0 then mism c s!"SPEC[verify-rejects-valid] VerifySignature refused a valid scheme-{scheme} signature rc={l.nat "verify0"}" else c
+        if l.nat "verify1" = 0 then mism c s!"SPEC[verify-accepts-invalid] VerifySignature accepted a corrupted scheme-{scheme} signature" else c
   | _ => c
 
 def check (ls : List Line) : Report := (ls.foldl step {}).rep
